@@ -116,148 +116,149 @@ def names : List (NameId × List Char) := [
   (105, "get_normal_wichura_draws".toList),
   (106, "get_number_of_observations".toList),
   (107, "get_robust_var_covar".toList),
-  (108, "get_signature".toList),
-  (109, "get_status_id_manager".toList),
-  (110, "get_text".toList),
-  (111, "get_uniform".toList),
-  (112, "get_value".toList),
-  (113, "get_value_and_derivatives".toList),
-  (114, "get_value_c".toList),
-  (115, "get_var_covar".toList),
-  (116, "get_version".toList),
-  (117, "isPanel".toList),
-  (118, "is_panel".toList),
-  (119, "likelihoodFiniteDifferenceHessian".toList),
-  (120, "likelihood_finite_difference_hessian".toList),
-  (121, "logcnl".toList),
-  (122, "logcnl_avail".toList),
-  (123, "logmev_endogenousSampling".toList),
-  (124, "logmev_endogenous_sampling".toList),
-  (125, "lognestedMevMu".toList),
-  (126, "lognested_mev_mu".toList),
-  (127, "mev_endogenousSampling".toList),
-  (128, "mev_endogenous_sampling".toList),
-  (129, "nestedMevMu".toList),
-  (130, "nested_mev_mu".toList),
-  (131, "numberOfFreeParameters".toList),
-  (132, "number_of_free_parameters".toList),
-  (133, "piecewiseFormula".toList),
-  (134, "piecewiseFunction".toList),
-  (135, "piecewiseVariables".toList),
-  (136, "piecewise_formula".toList),
-  (137, "piecewise_function".toList),
-  (138, "piecewise_variables".toList),
-  (139, "printGeneralStatistics".toList),
-  (140, "print_general_statistics".toList),
-  (141, "quickEstimate".toList),
-  (142, "quick_estimate".toList),
-  (143, "requiresDraws".toList),
-  (144, "requires_draws".toList),
-  (145, "sampleIndividualMapWithReplacement".toList),
-  (146, "sampleWithReplacement".toList),
-  (147, "sample_individual_map_with_replacement".toList),
-  (148, "sample_with_replacement".toList),
-  (149, "scaleColumn".toList),
-  (150, "scale_column".toList),
-  (151, "segment_parameter".toList),
-  (152, "segmented_beta".toList),
-  (153, "setData".toList),
-  (154, "setDataMap".toList),
-  (155, "setIdManager".toList),
-  (156, "setRandomInitValues".toList),
-  (157, "setRandomNumberGenerators".toList),
-  (158, "set_data".toList),
-  (159, "set_data_map".toList),
-  (160, "set_id_manager".toList),
-  (161, "set_random_init_values".toList),
-  (162, "set_random_number_generators".toList),
-  (163, "shortSummary".toList),
-  (164, "short_summary".toList),
-  (165, "suggestScaling".toList),
-  (166, "suggest_scaling".toList),
-  (167, "valuesFromDatabase".toList),
-  (168, "values_from_database".toList),
-  (169, "writeF12".toList),
-  (170, "writeHtml".toList),
-  (171, "writeLaTeX".toList),
-  (172, "writePickle".toList),
-  (173, "write_f12".toList),
-  (174, "write_html".toList),
-  (175, "write_latex".toList),
-  (176, "write_pickle".toList),
-  (177, "suggestScales".toList),
-  (178, "numberOfThreads".toList),
-  (179, "number_of_threads".toList),
-  (180, "numberOfDraws".toList),
-  (181, "number_of_draws".toList),
-  (182, "missingData".toList),
-  (183, "missing_data".toList),
-  (184, "parameter_file".toList),
-  (185, "parameters".toList),
-  (186, "userNotes".toList),
-  (187, "user_notes".toList),
-  (188, "generateHtml".toList),
-  (189, "generate_html".toList),
-  (190, "saveIterations".toList),
-  (191, "save_iterations".toList),
-  (192, "seed_param".toList),
-  (193, "seed".toList),
-  (194, "self".toList),
-  (195, "database".toList),
-  (196, "formulas".toList),
-  (197, "skip_audit".toList),
-  (198, "bootstrap_samples".toList),
-  (199, "dogleg".toList),
-  (200, "enlarging_factor".toList),
-  (201, "generate_pickle".toList),
-  (202, "identification_threshold".toList),
-  (203, "infeasible_cg".toList),
-  (204, "initial_radius".toList),
-  (205, "large_data_set".toList),
-  (206, "largest_neighborhood".toList),
-  (207, "max_iterations".toList),
-  (208, "max_number_parameters_to_report".toList),
-  (209, "maximum_attempts".toList),
-  (210, "maximum_number_catalog_expressions".toList),
-  (211, "maximum_number_parameters".toList),
-  (212, "number_of_neighbors".toList),
-  (213, "only_robust_stats".toList),
-  (214, "optimization_algorithm".toList),
-  (215, "second_derivatives".toList),
-  (216, "steptol".toList),
-  (217, "tolerance".toList),
-  (218, "version".toList),
-  (219, "bootstrap".toList),
-  (220, "run_bootstrap".toList),
-  (221, "recycle".toList),
-  (222, "theBetaValues".toList),
-  (223, "the_beta_values".toList),
-  (224, "uniformNumbers".toList),
-  (225, "uniform_numbers".toList),
-  (226, "sample_size".toList),
-  (227, "symmetric".toList),
-  (228, "antithetic".toList),
-  (229, "gradient".toList),
-  (230, "hessian".toList),
-  (231, "bhhh".toList),
-  (232, "prepareIds".toList),
-  (233, "prepare_ids".toList),
-  (234, "betas".toList),
-  (235, "aggregation".toList),
-  (236, "named_results".toList),
-  (237, "pickleFile".toList),
-  (238, "pickle_file".toList),
-  (239, "theRawResults".toList),
-  (240, "the_raw_results".toList),
-  (241, "myBetas".toList),
-  (242, "my_betas".toList),
-  (243, "useBootstrap".toList),
-  (244, "use_bootstrap".toList),
-  (245, "size".toList),
-  (246, "onlyRobust".toList),
-  (247, "only_robust".toList),
-  (248, "robustStdErr".toList),
-  (249, "robust_std_err".toList)
+  (108, "get_sample_size".toList),
+  (109, "get_signature".toList),
+  (110, "get_status_id_manager".toList),
+  (111, "get_text".toList),
+  (112, "get_uniform".toList),
+  (113, "get_value".toList),
+  (114, "get_value_and_derivatives".toList),
+  (115, "get_value_c".toList),
+  (116, "get_var_covar".toList),
+  (117, "get_version".toList),
+  (118, "isPanel".toList),
+  (119, "is_panel".toList),
+  (120, "likelihoodFiniteDifferenceHessian".toList),
+  (121, "likelihood_finite_difference_hessian".toList),
+  (122, "logcnl".toList),
+  (123, "logcnl_avail".toList),
+  (124, "logmev_endogenousSampling".toList),
+  (125, "logmev_endogenous_sampling".toList),
+  (126, "lognestedMevMu".toList),
+  (127, "lognested_mev_mu".toList),
+  (128, "mev_endogenousSampling".toList),
+  (129, "mev_endogenous_sampling".toList),
+  (130, "nestedMevMu".toList),
+  (131, "nested_mev_mu".toList),
+  (132, "numberOfFreeParameters".toList),
+  (133, "number_of_free_parameters".toList),
+  (134, "piecewiseFormula".toList),
+  (135, "piecewiseFunction".toList),
+  (136, "piecewiseVariables".toList),
+  (137, "piecewise_formula".toList),
+  (138, "piecewise_function".toList),
+  (139, "piecewise_variables".toList),
+  (140, "printGeneralStatistics".toList),
+  (141, "print_general_statistics".toList),
+  (142, "quickEstimate".toList),
+  (143, "quick_estimate".toList),
+  (144, "requiresDraws".toList),
+  (145, "requires_draws".toList),
+  (146, "sampleIndividualMapWithReplacement".toList),
+  (147, "sampleWithReplacement".toList),
+  (148, "sample_individual_map_with_replacement".toList),
+  (149, "sample_with_replacement".toList),
+  (150, "scaleColumn".toList),
+  (151, "scale_column".toList),
+  (152, "segment_parameter".toList),
+  (153, "segmented_beta".toList),
+  (154, "setData".toList),
+  (155, "setDataMap".toList),
+  (156, "setIdManager".toList),
+  (157, "setRandomInitValues".toList),
+  (158, "setRandomNumberGenerators".toList),
+  (159, "set_data".toList),
+  (160, "set_data_map".toList),
+  (161, "set_id_manager".toList),
+  (162, "set_random_init_values".toList),
+  (163, "set_random_number_generators".toList),
+  (164, "shortSummary".toList),
+  (165, "short_summary".toList),
+  (166, "suggestScaling".toList),
+  (167, "suggest_scaling".toList),
+  (168, "valuesFromDatabase".toList),
+  (169, "values_from_database".toList),
+  (170, "writeF12".toList),
+  (171, "writeHtml".toList),
+  (172, "writeLaTeX".toList),
+  (173, "writePickle".toList),
+  (174, "write_f12".toList),
+  (175, "write_html".toList),
+  (176, "write_latex".toList),
+  (177, "write_pickle".toList),
+  (178, "suggestScales".toList),
+  (179, "numberOfThreads".toList),
+  (180, "number_of_threads".toList),
+  (181, "numberOfDraws".toList),
+  (182, "number_of_draws".toList),
+  (183, "missingData".toList),
+  (184, "missing_data".toList),
+  (185, "parameter_file".toList),
+  (186, "parameters".toList),
+  (187, "userNotes".toList),
+  (188, "user_notes".toList),
+  (189, "generateHtml".toList),
+  (190, "generate_html".toList),
+  (191, "saveIterations".toList),
+  (192, "save_iterations".toList),
+  (193, "seed_param".toList),
+  (194, "seed".toList),
+  (195, "self".toList),
+  (196, "database".toList),
+  (197, "formulas".toList),
+  (198, "skip_audit".toList),
+  (199, "bootstrap_samples".toList),
+  (200, "dogleg".toList),
+  (201, "enlarging_factor".toList),
+  (202, "generate_pickle".toList),
+  (203, "identification_threshold".toList),
+  (204, "infeasible_cg".toList),
+  (205, "initial_radius".toList),
+  (206, "large_data_set".toList),
+  (207, "largest_neighborhood".toList),
+  (208, "max_iterations".toList),
+  (209, "max_number_parameters_to_report".toList),
+  (210, "maximum_attempts".toList),
+  (211, "maximum_number_catalog_expressions".toList),
+  (212, "maximum_number_parameters".toList),
+  (213, "number_of_neighbors".toList),
+  (214, "only_robust_stats".toList),
+  (215, "optimization_algorithm".toList),
+  (216, "second_derivatives".toList),
+  (217, "steptol".toList),
+  (218, "tolerance".toList),
+  (219, "version".toList),
+  (220, "bootstrap".toList),
+  (221, "run_bootstrap".toList),
+  (222, "recycle".toList),
+  (223, "theBetaValues".toList),
+  (224, "the_beta_values".toList),
+  (225, "uniformNumbers".toList),
+  (226, "uniform_numbers".toList),
+  (227, "sample_size".toList),
+  (228, "symmetric".toList),
+  (229, "antithetic".toList),
+  (230, "gradient".toList),
+  (231, "hessian".toList),
+  (232, "bhhh".toList),
+  (233, "prepareIds".toList),
+  (234, "prepare_ids".toList),
+  (235, "betas".toList),
+  (236, "aggregation".toList),
+  (237, "named_results".toList),
+  (238, "pickleFile".toList),
+  (239, "pickle_file".toList),
+  (240, "theRawResults".toList),
+  (241, "the_raw_results".toList),
+  (242, "myBetas".toList),
+  (243, "my_betas".toList),
+  (244, "useBootstrap".toList),
+  (245, "use_bootstrap".toList),
+  (246, "size".toList),
+  (247, "onlyRobust".toList),
+  (248, "only_robust".toList),
+  (249, "robustStdErr".toList),
+  (250, "robust_std_err".toList)
 ]
 
 /-- classes of the package (and the modules holding aliases, as one-class hierarchies): id, mro, relevant dict entries -/
@@ -265,7 +266,7 @@ def classes : Hier := [
   ⟨0, [0], []⟩,
   ⟨1, [1, 124], []⟩,
   ⟨2, [2], []⟩,
-  ⟨3, [3], [(9, 0), (10, 1), (11, 2), (12, 3), (13, 4), (14, 5), (15, 6), (16, 7), (18, 8), (20, 9), (31, 10), (32, 11), (56, 12), (86, 13), (89, 14), (119, 15), (120, 16), (141, 17), (142, 18), (156, 19), (161, 20)]⟩,
+  ⟨3, [3], [(9, 0), (10, 1), (11, 2), (12, 3), (13, 4), (14, 5), (15, 6), (16, 7), (18, 8), (20, 9), (31, 10), (32, 11), (56, 12), (86, 13), (89, 14), (120, 15), (121, 16), (142, 17), (143, 18), (157, 19), (162, 20)]⟩,
   ⟨4, [4, 130], []⟩,
   ⟨5, [5, 51, 19], []⟩,
   ⟨6, [6], []⟩,
@@ -273,7 +274,7 @@ def classes : Hier := [
   ⟨8, [8, 130], []⟩,
   ⟨9, [9], []⟩,
   ⟨10, [10], []⟩,
-  ⟨11, [11], [(1, 22), (2, 23), (3, 24), (5, 25), (6, 26), (17, 27), (19, 28), (21, 29), (22, 30), (39, 31), (40, 32), (41, 33), (42, 34), (43, 35), (48, 36), (49, 37), (50, 38), (51, 39), (73, 40), (75, 41), (106, 42), (117, 43), (118, 44), (145, 45), (146, 46), (147, 47), (148, 48), (149, 49), (150, 50), (157, 51), (162, 52), (165, 53), (166, 54), (167, 55), (168, 56)]⟩,
+  ⟨11, [11], [(1, 22), (2, 23), (3, 24), (5, 25), (6, 26), (17, 27), (19, 28), (21, 29), (22, 30), (39, 31), (40, 32), (41, 33), (42, 34), (43, 35), (48, 36), (49, 37), (50, 38), (51, 39), (73, 40), (75, 41), (106, 42), (108, 43), (118, 44), (119, 45), (146, 46), (147, 47), (148, 48), (149, 49), (150, 50), (151, 51), (158, 52), (163, 53), (166, 54), (167, 55), (168, 56), (169, 57)]⟩,
   ⟨12, [12, 130], []⟩,
   ⟨13, [13, 130], []⟩,
   ⟨14, [14, 129, 128], []⟩,
@@ -281,61 +282,61 @@ def classes : Hier := [
   ⟨16, [16, 14, 129, 128], []⟩,
   ⟨17, [17, 14, 129, 128], []⟩,
   ⟨18, [18, 14, 129, 128], []⟩,
-  ⟨19, [19], [(34, 57), (36, 58), (37, 59), (38, 60), (44, 61), (45, 62), (57, 63), (59, 64), (76, 65), (77, 66), (80, 67), (81, 68), (82, 69), (86, 70), (90, 71), (92, 72), (108, 73), (109, 74), (112, 75), (113, 76), (114, 77), (143, 78), (144, 79), (155, 80), (160, 81)]⟩,
-  ⟨20, [20, 40, 19], [(80, 82), (108, 83), (112, 84), (160, 85)]⟩,
-  ⟨21, [21, 22, 19], [(80, 86), (112, 87)]⟩,
+  ⟨19, [19], [(34, 58), (36, 59), (37, 60), (38, 61), (44, 62), (45, 63), (57, 64), (59, 65), (76, 66), (77, 67), (80, 68), (81, 69), (82, 70), (86, 71), (90, 72), (92, 73), (109, 74), (110, 75), (113, 76), (114, 77), (115, 78), (144, 79), (145, 80), (156, 81), (161, 82)]⟩,
+  ⟨20, [20, 40, 19], [(80, 83), (109, 84), (113, 85), (161, 86)]⟩,
+  ⟨21, [21, 22, 19], [(80, 87), (113, 88)]⟩,
   ⟨22, [22, 19], []⟩,
-  ⟨23, [23, 22, 19], [(80, 88), (112, 89)]⟩,
-  ⟨24, [24, 22, 19], [(80, 90), (112, 91)]⟩,
-  ⟨25, [25, 22, 19], [(80, 92), (112, 93)]⟩,
-  ⟨26, [26, 22, 19], [(80, 94), (112, 95)]⟩,
-  ⟨27, [27, 22, 19], [(80, 96), (112, 97)]⟩,
-  ⟨28, [28, 22, 19], [(80, 98), (112, 99)]⟩,
-  ⟨29, [29, 22, 19], [(80, 100), (112, 101)]⟩,
-  ⟨30, [30, 22, 19], [(80, 102), (112, 103)]⟩,
+  ⟨23, [23, 22, 19], [(80, 89), (113, 90)]⟩,
+  ⟨24, [24, 22, 19], [(80, 91), (113, 92)]⟩,
+  ⟨25, [25, 22, 19], [(80, 93), (113, 94)]⟩,
+  ⟨26, [26, 22, 19], [(80, 95), (113, 96)]⟩,
+  ⟨27, [27, 22, 19], [(80, 97), (113, 98)]⟩,
+  ⟨28, [28, 22, 19], [(80, 99), (113, 100)]⟩,
+  ⟨29, [29, 22, 19], [(80, 101), (113, 102)]⟩,
+  ⟨30, [30, 22, 19], [(80, 103), (113, 104)]⟩,
   ⟨31, [31], []⟩,
   ⟨32, [32, 22, 19], []⟩,
-  ⟨33, [33, 32, 22, 19], [(80, 104), (112, 105)]⟩,
-  ⟨34, [34, 32, 22, 19], [(80, 106), (112, 107)]⟩,
-  ⟨35, [35, 32, 22, 19], [(80, 108), (112, 109)]⟩,
-  ⟨36, [36, 32, 22, 19], [(80, 110), (112, 111)]⟩,
-  ⟨37, [37, 32, 22, 19], [(80, 112), (112, 113)]⟩,
-  ⟨38, [38, 32, 22, 19], [(80, 114), (112, 115)]⟩,
+  ⟨33, [33, 32, 22, 19], [(80, 105), (113, 106)]⟩,
+  ⟨34, [34, 32, 22, 19], [(80, 107), (113, 108)]⟩,
+  ⟨35, [35, 32, 22, 19], [(80, 109), (113, 110)]⟩,
+  ⟨36, [36, 32, 22, 19], [(80, 111), (113, 112)]⟩,
+  ⟨37, [37, 32, 22, 19], [(80, 113), (113, 114)]⟩,
+  ⟨38, [38, 32, 22, 19], [(80, 115), (113, 116)]⟩,
   ⟨39, [39, 42, 40, 19], []⟩,
-  ⟨40, [40, 19], [(92, 116), (109, 117)]⟩,
-  ⟨41, [41, 40, 19], [(108, 118), (160, 119)]⟩,
-  ⟨42, [42, 40, 19], [(108, 120), (160, 121)]⟩,
-  ⟨43, [43, 40, 19], [(108, 122), (160, 123)]⟩,
+  ⟨40, [40, 19], [(92, 117), (110, 118)]⟩,
+  ⟨41, [41, 40, 19], [(109, 119), (161, 120)]⟩,
+  ⟨42, [42, 40, 19], [(109, 121), (161, 122)]⟩,
+  ⟨43, [43, 40, 19], [(109, 123), (161, 124)]⟩,
   ⟨44, [44, 132], []⟩,
   ⟨45, [45, 133, 130], []⟩,
-  ⟨46, [46], [(153, 124), (154, 125), (158, 126), (159, 127)]⟩,
-  ⟨47, [47, 19], [(80, 128), (108, 129), (112, 130)]⟩,
+  ⟨46, [46], [(154, 125), (155, 126), (159, 127), (160, 128)]⟩,
+  ⟨47, [47, 19], [(80, 129), (109, 130), (113, 131)]⟩,
   ⟨48, [48, 47, 19], []⟩,
   ⟨49, [49, 47, 19], []⟩,
   ⟨50, [50, 130], []⟩,
-  ⟨51, [51, 19], [(36, 131), (45, 132), (80, 133), (92, 134), (108, 135), (109, 136), (112, 137), (160, 138)]⟩,
+  ⟨51, [51, 19], [(36, 132), (45, 133), (80, 134), (92, 135), (109, 136), (110, 137), (113, 138), (161, 139)]⟩,
   ⟨52, [52, 130], []⟩,
-  ⟨53, [53, 19], [(80, 139), (108, 140), (112, 141)]⟩,
+  ⟨53, [53, 19], [(80, 140), (109, 141), (113, 142)]⟩,
   ⟨54, [54, 130], []⟩,
-  ⟨55, [55, 19], [(80, 142), (108, 143), (112, 144)]⟩,
+  ⟨55, [55, 19], [(80, 143), (109, 144), (113, 145)]⟩,
   ⟨56, [56, 130], []⟩,
-  ⟨57, [57, 19], [(108, 145)]⟩,
-  ⟨58, [58, 19], [(80, 146), (112, 147)]⟩,
-  ⟨59, [59, 19], [(80, 148), (108, 149), (112, 150)]⟩,
-  ⟨60, [60, 67, 19], [(108, 151)]⟩,
-  ⟨61, [61, 67, 19], [(108, 152)]⟩,
-  ⟨62, [62, 67, 19], [(108, 153)]⟩,
+  ⟨57, [57, 19], [(109, 146)]⟩,
+  ⟨58, [58, 19], [(80, 147), (113, 148)]⟩,
+  ⟨59, [59, 19], [(80, 149), (109, 150), (113, 151)]⟩,
+  ⟨60, [60, 67, 19], [(109, 152)]⟩,
+  ⟨61, [61, 67, 19], [(109, 153)]⟩,
+  ⟨62, [62, 67, 19], [(109, 154)]⟩,
   ⟨63, [63, 67, 19], []⟩,
-  ⟨64, [64, 67, 19], [(36, 154)]⟩,
-  ⟨65, [65, 67, 19], [(108, 155), (112, 156)]⟩,
-  ⟨66, [66, 67, 19], [(80, 157), (112, 158)]⟩,
+  ⟨64, [64, 67, 19], [(36, 155)]⟩,
+  ⟨65, [65, 67, 19], [(109, 156), (113, 157)]⟩,
+  ⟨66, [66, 67, 19], [(80, 158), (113, 159)]⟩,
   ⟨67, [67, 19], []⟩,
   ⟨68, [68, 67, 19], []⟩,
-  ⟨69, [69, 67, 19], [(80, 159), (112, 160)]⟩,
-  ⟨70, [70, 67, 19], [(80, 161), (112, 162)]⟩,
-  ⟨71, [71, 67, 19], [(80, 163), (112, 164)]⟩,
-  ⟨72, [72, 67, 19], [(80, 165), (112, 166)]⟩,
-  ⟨73, [73, 67, 19], [(80, 167), (112, 168)]⟩,
+  ⟨69, [69, 67, 19], [(80, 160), (113, 161)]⟩,
+  ⟨70, [70, 67, 19], [(80, 162), (113, 163)]⟩,
+  ⟨71, [71, 67, 19], [(80, 164), (113, 165)]⟩,
+  ⟨72, [72, 67, 19], [(80, 166), (113, 167)]⟩,
+  ⟨73, [73, 67, 19], [(80, 168), (113, 169)]⟩,
   ⟨74, [74], []⟩,
   ⟨75, [75, 82], []⟩,
   ⟨76, [76, 78], []⟩,
@@ -360,12 +361,12 @@ def classes : Hier := [
   ⟨95, [95], []⟩,
   ⟨96, [96], []⟩,
   ⟨97, [97, 130], []⟩,
-  ⟨98, [98], [(112, 169)]⟩,
+  ⟨98, [98], [(113, 170)]⟩,
   ⟨99, [99], []⟩,
   ⟨100, [100], []⟩,
   ⟨101, [101, 130], []⟩,
   ⟨102, [102], []⟩,
-  ⟨103, [103], [(53, 170), (54, 171), (55, 172), (58, 173), (60, 174), (61, 175), (62, 176), (64, 177), (65, 178), (74, 179), (83, 180), (86, 181), (87, 182), (88, 183), (91, 184), (93, 185), (94, 186), (95, 187), (97, 188), (98, 189), (107, 190), (115, 191), (131, 192), (132, 193), (139, 194), (140, 195), (163, 196), (164, 197), (169, 198), (170, 199), (171, 200), (172, 201), (173, 202), (174, 203), (175, 204), (176, 205)]⟩,
+  ⟨103, [103], [(53, 171), (54, 172), (55, 173), (58, 174), (60, 175), (61, 176), (62, 177), (64, 178), (65, 179), (74, 180), (83, 181), (86, 182), (87, 183), (88, 184), (91, 185), (93, 186), (94, 187), (95, 188), (97, 189), (98, 190), (107, 191), (116, 192), (132, 193), (133, 194), (140, 195), (141, 196), (164, 197), (165, 198), (170, 199), (171, 200), (172, 201), (173, 202), (174, 203), (175, 204), (176, 205), (177, 206)]⟩,
   ⟨104, [104], []⟩,
   ⟨105, [105], []⟩,
   ⟨106, [106, 130], []⟩,
@@ -374,7 +375,7 @@ def classes : Hier := [
   ⟨109, [109], []⟩,
   ⟨110, [110], []⟩,
   ⟨111, [111], []⟩,
-  ⟨112, [112], [(152, 206)]⟩,
+  ⟨112, [112], [(153, 207)]⟩,
   ⟨113, [113, 131], []⟩,
   ⟨114, [114], []⟩,
   ⟨115, [115], []⟩,
@@ -385,7 +386,7 @@ def classes : Hier := [
   ⟨120, [120], []⟩,
   ⟨121, [121, 130], []⟩,
   ⟨122, [122, 130], []⟩,
-  ⟨123, [123, 0], [(20, 207)]⟩,
+  ⟨123, [123, 0], [(20, 208)]⟩,
   ⟨124, [124], []⟩,
   ⟨125, [125], []⟩,
   ⟨126, [126], []⟩,
@@ -396,18 +397,18 @@ def classes : Hier := [
   ⟨131, [131], []⟩,
   ⟨132, [132], []⟩,
   ⟨133, [133], []⟩,
-  ⟨134, [134], [(24, 208), (25, 209), (27, 210), (28, 211)]⟩,
-  ⟨135, [135], [(52, 212), (63, 213), (66, 214), (72, 215), (79, 216), (85, 217), (96, 218), (99, 219), (105, 220), (111, 221)]⟩,
-  ⟨136, [136], [(23, 222), (26, 223), (67, 224), (68, 225), (100, 226), (101, 227), (121, 228), (122, 229)]⟩,
-  ⟨137, [137], [(123, 230), (124, 231), (127, 232), (128, 233)]⟩,
-  ⟨138, [138], [(69, 234), (70, 235), (71, 236), (102, 237), (103, 238), (104, 239), (125, 240), (126, 241), (129, 242), (130, 243)]⟩,
-  ⟨139, [139], [(133, 244), (134, 245), (135, 246), (136, 247), (137, 248), (138, 249)]⟩,
-  ⟨140, [140], [(0, 250), (4, 251)]⟩,
-  ⟨141, [141], [(7, 252), (8, 253), (29, 254), (30, 255)]⟩,
-  ⟨142, [142], [(151, 256), (152, 257)]⟩,
-  ⟨143, [143], [(33, 258), (35, 259)]⟩,
-  ⟨144, [144], [(18, 260), (20, 261), (46, 262), (47, 263)]⟩,
-  ⟨145, [145], [(64, 264), (65, 265), (78, 266), (84, 267), (97, 268), (98, 269), (110, 270), (116, 271)]⟩
+  ⟨134, [134], [(24, 209), (25, 210), (27, 211), (28, 212)]⟩,
+  ⟨135, [135], [(52, 213), (63, 214), (66, 215), (72, 216), (79, 217), (85, 218), (96, 219), (99, 220), (105, 221), (112, 222)]⟩,
+  ⟨136, [136], [(23, 223), (26, 224), (67, 225), (68, 226), (100, 227), (101, 228), (122, 229), (123, 230)]⟩,
+  ⟨137, [137], [(124, 231), (125, 232), (128, 233), (129, 234)]⟩,
+  ⟨138, [138], [(69, 235), (70, 236), (71, 237), (102, 238), (103, 239), (104, 240), (126, 241), (127, 242), (130, 243), (131, 244)]⟩,
+  ⟨139, [139], [(134, 245), (135, 246), (136, 247), (137, 248), (138, 249), (139, 250)]⟩,
+  ⟨140, [140], [(0, 251), (4, 252)]⟩,
+  ⟨141, [141], [(7, 253), (8, 254), (29, 255), (30, 256)]⟩,
+  ⟨142, [142], [(152, 257), (153, 258)]⟩,
+  ⟨143, [143], [(33, 259), (35, 260)]⟩,
+  ⟨144, [144], [(18, 261), (20, 262), (46, 263), (47, 264)]⟩,
+  ⟨145, [145], [(64, 265), (65, 266), (78, 267), (84, 268), (97, 269), (98, 270), (111, 271), (117, 272)]⟩
 ]
 
 /- class ids:
@@ -568,11 +569,11 @@ def aliases : List Alias := [
   ⟨3, 18, 8, 20, 20, 9, false, false⟩,
   ⟨3, 31, 10, 32, 32, 11, false, false⟩,
   ⟨3, 56, 12, 89, 89, 14, false, false⟩,
-  ⟨3, 119, 15, 120, 120, 16, false, false⟩,
-  ⟨3, 141, 17, 142, 142, 18, false, false⟩,
-  ⟨3, 156, 19, 161, 161, 20, false, false⟩,
-  ⟨134, 24, 208, 27, 27, 210, true, false⟩,
-  ⟨134, 25, 209, 28, 28, 211, true, false⟩,
+  ⟨3, 120, 15, 121, 121, 16, false, false⟩,
+  ⟨3, 142, 17, 143, 143, 18, false, false⟩,
+  ⟨3, 157, 19, 162, 162, 20, false, false⟩,
+  ⟨134, 24, 209, 27, 27, 211, true, false⟩,
+  ⟨134, 25, 210, 28, 28, 212, true, false⟩,
   ⟨11, 1, 22, 39, 39, 31, false, false⟩,
   ⟨11, 2, 23, 3, 3, 24, false, false⟩,
   ⟨11, 5, 25, 6, 6, 26, false, false⟩,
@@ -583,104 +584,104 @@ def aliases : List Alias := [
   ⟨11, 48, 36, 50, 50, 38, false, false⟩,
   ⟨11, 49, 37, 51, 51, 39, false, false⟩,
   ⟨11, 73, 40, 106, 106, 42, false, false⟩,
-  ⟨11, 75, 41, 106, 106, 42, false, false⟩,
-  ⟨11, 117, 43, 118, 118, 44, false, false⟩,
-  ⟨11, 145, 45, 147, 147, 47, false, false⟩,
+  ⟨11, 75, 41, 108, 108, 43, false, false⟩,
+  ⟨11, 118, 44, 119, 119, 45, false, false⟩,
   ⟨11, 146, 46, 148, 148, 48, false, false⟩,
-  ⟨11, 149, 49, 150, 150, 50, false, false⟩,
-  ⟨11, 157, 51, 162, 162, 52, false, false⟩,
-  ⟨11, 165, 53, 166, 166, 54, false, false⟩,
-  ⟨11, 167, 55, 168, 168, 56, false, false⟩,
-  ⟨135, 52, 212, 85, 85, 217, true, false⟩,
-  ⟨135, 63, 213, 96, 96, 218, true, false⟩,
-  ⟨135, 66, 214, 99, 99, 219, true, false⟩,
-  ⟨135, 72, 215, 105, 105, 220, true, false⟩,
-  ⟨135, 79, 216, 111, 111, 221, true, false⟩,
-  ⟨19, 34, 57, 36, 36, 58, false, false⟩,
-  ⟨19, 37, 59, 38, 38, 60, false, false⟩,
-  ⟨19, 44, 61, 45, 45, 62, false, false⟩,
-  ⟨19, 57, 63, 90, 90, 71, false, false⟩,
-  ⟨19, 59, 64, 92, 92, 72, false, false⟩,
-  ⟨19, 76, 65, 108, 108, 73, false, false⟩,
-  ⟨19, 77, 66, 109, 109, 74, false, false⟩,
-  ⟨19, 80, 67, 112, 112, 75, false, false⟩,
-  ⟨19, 81, 68, 113, 113, 76, false, false⟩,
-  ⟨19, 82, 69, 114, 114, 77, false, false⟩,
-  ⟨19, 143, 78, 144, 144, 79, false, false⟩,
-  ⟨19, 155, 80, 160, 160, 81, false, false⟩,
-  ⟨20, 80, 82, 112, 112, 84, false, false⟩,
-  ⟨21, 80, 86, 112, 112, 87, false, false⟩,
-  ⟨23, 80, 88, 112, 112, 89, false, false⟩,
-  ⟨24, 80, 90, 112, 112, 91, false, false⟩,
-  ⟨25, 80, 92, 112, 112, 93, false, false⟩,
-  ⟨26, 80, 94, 112, 112, 95, false, false⟩,
-  ⟨27, 80, 96, 112, 112, 97, false, false⟩,
-  ⟨28, 80, 98, 112, 112, 99, false, false⟩,
-  ⟨29, 80, 100, 112, 112, 101, false, false⟩,
-  ⟨30, 80, 102, 112, 112, 103, false, false⟩,
-  ⟨33, 80, 104, 112, 112, 105, false, false⟩,
-  ⟨34, 80, 106, 112, 112, 107, false, false⟩,
-  ⟨35, 80, 108, 112, 112, 109, false, false⟩,
-  ⟨36, 80, 110, 112, 112, 111, false, false⟩,
-  ⟨37, 80, 112, 112, 112, 113, false, false⟩,
-  ⟨38, 80, 114, 112, 112, 115, false, false⟩,
-  ⟨46, 153, 124, 158, 158, 126, false, false⟩,
+  ⟨11, 147, 47, 149, 149, 49, false, false⟩,
+  ⟨11, 150, 50, 151, 151, 51, false, false⟩,
+  ⟨11, 158, 52, 163, 163, 53, false, false⟩,
+  ⟨11, 166, 54, 167, 167, 55, false, false⟩,
+  ⟨11, 168, 56, 169, 169, 57, false, false⟩,
+  ⟨135, 52, 213, 85, 85, 218, true, false⟩,
+  ⟨135, 63, 214, 96, 96, 219, true, false⟩,
+  ⟨135, 66, 215, 99, 99, 220, true, false⟩,
+  ⟨135, 72, 216, 105, 105, 221, true, false⟩,
+  ⟨135, 79, 217, 112, 112, 222, true, false⟩,
+  ⟨19, 34, 58, 36, 36, 59, false, false⟩,
+  ⟨19, 37, 60, 38, 38, 61, false, false⟩,
+  ⟨19, 44, 62, 45, 45, 63, false, false⟩,
+  ⟨19, 57, 64, 90, 90, 72, false, false⟩,
+  ⟨19, 59, 65, 92, 92, 73, false, false⟩,
+  ⟨19, 76, 66, 109, 109, 74, false, false⟩,
+  ⟨19, 77, 67, 110, 110, 75, false, false⟩,
+  ⟨19, 80, 68, 113, 113, 76, false, false⟩,
+  ⟨19, 81, 69, 114, 114, 77, false, false⟩,
+  ⟨19, 82, 70, 115, 115, 78, false, false⟩,
+  ⟨19, 144, 79, 145, 145, 80, false, false⟩,
+  ⟨19, 156, 81, 161, 161, 82, false, false⟩,
+  ⟨20, 80, 83, 113, 113, 85, false, false⟩,
+  ⟨21, 80, 87, 113, 113, 88, false, false⟩,
+  ⟨23, 80, 89, 113, 113, 90, false, false⟩,
+  ⟨24, 80, 91, 113, 113, 92, false, false⟩,
+  ⟨25, 80, 93, 113, 113, 94, false, false⟩,
+  ⟨26, 80, 95, 113, 113, 96, false, false⟩,
+  ⟨27, 80, 97, 113, 113, 98, false, false⟩,
+  ⟨28, 80, 99, 113, 113, 100, false, false⟩,
+  ⟨29, 80, 101, 113, 113, 102, false, false⟩,
+  ⟨30, 80, 103, 113, 113, 104, false, false⟩,
+  ⟨33, 80, 105, 113, 113, 106, false, false⟩,
+  ⟨34, 80, 107, 113, 113, 108, false, false⟩,
+  ⟨35, 80, 109, 113, 113, 110, false, false⟩,
+  ⟨36, 80, 111, 113, 113, 112, false, false⟩,
+  ⟨37, 80, 113, 113, 113, 114, false, false⟩,
+  ⟨38, 80, 115, 113, 113, 116, false, false⟩,
   ⟨46, 154, 125, 159, 159, 127, false, false⟩,
-  ⟨47, 80, 128, 112, 112, 130, false, false⟩,
-  ⟨51, 80, 133, 112, 112, 137, false, false⟩,
-  ⟨53, 80, 139, 112, 112, 141, false, false⟩,
-  ⟨55, 80, 142, 112, 112, 144, false, false⟩,
-  ⟨58, 80, 146, 112, 112, 147, false, false⟩,
-  ⟨59, 80, 148, 112, 112, 150, false, false⟩,
-  ⟨66, 80, 157, 112, 112, 158, false, false⟩,
-  ⟨69, 80, 159, 112, 112, 160, false, false⟩,
-  ⟨70, 80, 161, 112, 112, 162, false, false⟩,
-  ⟨71, 80, 163, 112, 112, 164, false, false⟩,
-  ⟨72, 80, 165, 112, 112, 166, false, false⟩,
-  ⟨73, 80, 167, 112, 112, 168, false, false⟩,
-  ⟨136, 26, 223, 23, 23, 222, true, false⟩,
-  ⟨136, 67, 224, 100, 100, 226, true, false⟩,
-  ⟨136, 68, 225, 101, 101, 227, true, false⟩,
-  ⟨136, 122, 229, 121, 121, 228, true, false⟩,
-  ⟨137, 123, 230, 124, 124, 231, true, false⟩,
-  ⟨137, 127, 232, 128, 128, 233, true, false⟩,
-  ⟨138, 69, 234, 102, 102, 237, true, false⟩,
-  ⟨138, 70, 235, 103, 103, 238, true, false⟩,
-  ⟨138, 71, 236, 104, 104, 239, true, false⟩,
-  ⟨138, 125, 240, 126, 126, 241, true, false⟩,
-  ⟨138, 129, 242, 130, 130, 243, true, false⟩,
-  ⟨139, 133, 244, 136, 136, 247, true, false⟩,
+  ⟨46, 155, 126, 160, 160, 128, false, false⟩,
+  ⟨47, 80, 129, 113, 113, 131, false, false⟩,
+  ⟨51, 80, 134, 113, 113, 138, false, false⟩,
+  ⟨53, 80, 140, 113, 113, 142, false, false⟩,
+  ⟨55, 80, 143, 113, 113, 145, false, false⟩,
+  ⟨58, 80, 147, 113, 113, 148, false, false⟩,
+  ⟨59, 80, 149, 113, 113, 151, false, false⟩,
+  ⟨66, 80, 158, 113, 113, 159, false, false⟩,
+  ⟨69, 80, 160, 113, 113, 161, false, false⟩,
+  ⟨70, 80, 162, 113, 113, 163, false, false⟩,
+  ⟨71, 80, 164, 113, 113, 165, false, false⟩,
+  ⟨72, 80, 166, 113, 113, 167, false, false⟩,
+  ⟨73, 80, 168, 113, 113, 169, false, false⟩,
+  ⟨136, 26, 224, 23, 23, 223, true, false⟩,
+  ⟨136, 67, 225, 100, 100, 227, true, false⟩,
+  ⟨136, 68, 226, 101, 101, 228, true, false⟩,
+  ⟨136, 123, 230, 122, 122, 229, true, false⟩,
+  ⟨137, 124, 231, 125, 125, 232, true, false⟩,
+  ⟨137, 128, 233, 129, 129, 234, true, false⟩,
+  ⟨138, 69, 235, 102, 102, 238, true, false⟩,
+  ⟨138, 70, 236, 103, 103, 239, true, false⟩,
+  ⟨138, 71, 237, 104, 104, 240, true, false⟩,
+  ⟨138, 126, 241, 127, 127, 242, true, false⟩,
+  ⟨138, 130, 243, 131, 131, 244, true, false⟩,
   ⟨139, 134, 245, 137, 137, 248, true, false⟩,
   ⟨139, 135, 246, 138, 138, 249, true, false⟩,
-  ⟨140, 0, 250, 4, 4, 251, true, false⟩,
-  ⟨141, 7, 252, 8, 8, 253, true, false⟩,
-  ⟨141, 29, 254, 30, 30, 255, true, false⟩,
-  ⟨103, 53, 170, 86, 86, 181, false, false⟩,
-  ⟨103, 54, 171, 87, 87, 182, false, false⟩,
-  ⟨103, 55, 172, 88, 88, 183, false, false⟩,
-  ⟨103, 58, 173, 91, 91, 184, false, false⟩,
-  ⟨103, 60, 174, 93, 93, 185, false, false⟩,
-  ⟨103, 61, 175, 94, 94, 186, false, false⟩,
-  ⟨103, 62, 176, 95, 95, 187, false, false⟩,
-  ⟨103, 64, 177, 97, 97, 188, false, false⟩,
-  ⟨103, 65, 178, 98, 98, 189, false, false⟩,
-  ⟨103, 74, 179, 107, 107, 190, false, false⟩,
-  ⟨103, 83, 180, 115, 115, 191, false, false⟩,
-  ⟨103, 131, 192, 132, 132, 193, false, false⟩,
-  ⟨103, 139, 194, 140, 140, 195, false, false⟩,
-  ⟨103, 163, 196, 164, 164, 197, false, false⟩,
-  ⟨103, 169, 198, 173, 173, 202, false, false⟩,
+  ⟨139, 136, 247, 139, 139, 250, true, false⟩,
+  ⟨140, 0, 251, 4, 4, 252, true, false⟩,
+  ⟨141, 7, 253, 8, 8, 254, true, false⟩,
+  ⟨141, 29, 255, 30, 30, 256, true, false⟩,
+  ⟨103, 53, 171, 86, 86, 182, false, false⟩,
+  ⟨103, 54, 172, 87, 87, 183, false, false⟩,
+  ⟨103, 55, 173, 88, 88, 184, false, false⟩,
+  ⟨103, 58, 174, 91, 91, 185, false, false⟩,
+  ⟨103, 60, 175, 93, 93, 186, false, false⟩,
+  ⟨103, 61, 176, 94, 94, 187, false, false⟩,
+  ⟨103, 62, 177, 95, 95, 188, false, false⟩,
+  ⟨103, 64, 178, 97, 97, 189, false, false⟩,
+  ⟨103, 65, 179, 98, 98, 190, false, false⟩,
+  ⟨103, 74, 180, 107, 107, 191, false, false⟩,
+  ⟨103, 83, 181, 116, 116, 192, false, false⟩,
+  ⟨103, 132, 193, 133, 133, 194, false, false⟩,
+  ⟨103, 140, 195, 141, 141, 196, false, false⟩,
+  ⟨103, 164, 197, 165, 165, 198, false, false⟩,
   ⟨103, 170, 199, 174, 174, 203, false, false⟩,
   ⟨103, 171, 200, 175, 175, 204, false, false⟩,
   ⟨103, 172, 201, 176, 176, 205, false, false⟩,
-  ⟨142, 151, 256, 152, 152, 257, true, false⟩,
-  ⟨143, 33, 258, 35, 35, 259, true, false⟩,
-  ⟨144, 18, 260, 20, 20, 261, true, false⟩,
-  ⟨144, 46, 262, 47, 47, 263, true, false⟩,
-  ⟨145, 64, 264, 97, 97, 268, true, false⟩,
-  ⟨145, 65, 265, 98, 98, 269, true, false⟩,
-  ⟨145, 78, 266, 110, 110, 270, true, false⟩,
-  ⟨145, 84, 267, 116, 116, 271, true, false⟩
+  ⟨103, 173, 202, 177, 177, 206, false, false⟩,
+  ⟨142, 152, 257, 153, 153, 258, true, false⟩,
+  ⟨143, 33, 259, 35, 35, 260, true, false⟩,
+  ⟨144, 18, 261, 20, 20, 262, true, false⟩,
+  ⟨144, 46, 263, 47, 47, 264, true, false⟩,
+  ⟨145, 64, 265, 97, 97, 269, true, false⟩,
+  ⟨145, 65, 266, 98, 98, 270, true, false⟩,
+  ⟨145, 78, 267, 111, 111, 271, true, false⟩,
+  ⟨145, 84, 268, 117, 117, 272, true, false⟩
 ]
 
 /-- listed known findings (owner, old name) that are still present -/
@@ -693,25 +694,25 @@ def exceptions : List (List Char × List Char) := [("cnl_avail".toList, "cnl".to
 def kwExceptions : List (List Char × List Char) := [("parameter_file".toList, "parameters".toList), ("seed_param".toList, "seed".toList), ("bootstrap".toList, "run_bootstrap".toList), ("suggestScales".toList, "".toList)]
 
 def kwUses : List KwUse := [
-  ⟨3, 0, [(177, none), (178, some 179), (180, some 181), (182, some 183), (184, some 185), (186, some 187), (188, some 189), (190, some 191), (192, some 193)], [194, 195, 196, 187, 185, 197], [198, 199, 200, 189, 201, 202, 203, 204, 205, 206, 207, 208, 209, 210, 211, 183, 181, 212, 179, 213, 214, 191, 215, 193, 216, 217, 218]⟩,
-  ⟨3, 0, [(219, some 220)], [194, 221, 220], []⟩,
-  ⟨3, 0, [(222, some 223)], [194, 223], []⟩,
-  ⟨135, 99, [(224, some 225)], [226, 181, 227, 225], []⟩,
-  ⟨135, 105, [(224, some 225)], [226, 181, 225, 228], []⟩,
-  ⟨19, 38, [(180, some 181)], [194, 195, 181, 229, 230, 231], []⟩,
-  ⟨19, 0, [(180, some 181)], [194, 195, 181, 229, 230, 231], []⟩,
-  ⟨19, 113, [(180, some 181), (232, some 233)], [194, 234, 195, 181, 229, 230, 231, 235, 233, 236], []⟩,
-  ⟨19, 114, [(180, some 181), (232, some 233)], [194, 195, 234, 181, 235, 233], []⟩,
-  ⟨19, 0, [(180, some 181)], [194, 195, 181], []⟩,
-  ⟨103, 0, [(237, some 238), (239, some 240)], [194, 240, 238, 202], []⟩,
-  ⟨103, 86, [(241, some 242)], [194, 242], []⟩,
-  ⟨103, 87, [(241, some 242), (243, some 244)], [194, 242, 245, 244], []⟩,
-  ⟨103, 93, [(246, some 247)], [194, 247], []⟩,
-  ⟨103, 94, [(248, some 249)], [194, 249], []⟩,
-  ⟨103, 97, [(246, some 247)], [194, 247], []⟩,
-  ⟨103, 98, [(246, some 247)], [194, 247], []⟩,
-  ⟨103, 173, [(248, some 249)], [194, 249], []⟩,
-  ⟨103, 174, [(246, some 247)], [194, 247], []⟩
+  ⟨3, 0, [(178, none), (179, some 180), (181, some 182), (183, some 184), (185, some 186), (187, some 188), (189, some 190), (191, some 192), (193, some 194)], [195, 196, 197, 188, 186, 198], [199, 200, 201, 190, 202, 203, 204, 205, 206, 207, 208, 209, 210, 211, 212, 184, 182, 213, 180, 214, 215, 192, 216, 194, 217, 218, 219]⟩,
+  ⟨3, 0, [(220, some 221)], [195, 222, 221], []⟩,
+  ⟨3, 0, [(223, some 224)], [195, 224], []⟩,
+  ⟨135, 99, [(225, some 226)], [227, 182, 228, 226], []⟩,
+  ⟨135, 105, [(225, some 226)], [227, 182, 226, 229], []⟩,
+  ⟨19, 38, [(181, some 182)], [195, 196, 182, 230, 231, 232], []⟩,
+  ⟨19, 0, [(181, some 182)], [195, 196, 182, 230, 231, 232], []⟩,
+  ⟨19, 114, [(181, some 182), (233, some 234)], [195, 235, 196, 182, 230, 231, 232, 236, 234, 237], []⟩,
+  ⟨19, 115, [(181, some 182), (233, some 234)], [195, 196, 235, 182, 236, 234], []⟩,
+  ⟨19, 0, [(181, some 182)], [195, 196, 182], []⟩,
+  ⟨103, 0, [(238, some 239), (240, some 241)], [195, 241, 239, 203], []⟩,
+  ⟨103, 86, [(242, some 243)], [195, 243], []⟩,
+  ⟨103, 87, [(242, some 243), (244, some 245)], [195, 243, 246, 245], []⟩,
+  ⟨103, 93, [(247, some 248)], [195, 248], []⟩,
+  ⟨103, 94, [(249, some 250)], [195, 250], []⟩,
+  ⟨103, 97, [(247, some 248)], [195, 248], []⟩,
+  ⟨103, 98, [(247, some 248)], [195, 248], []⟩,
+  ⟨103, 174, [(249, some 250)], [195, 250], []⟩,
+  ⟨103, 175, [(247, some 248)], [195, 248], []⟩
 ]
 
 /-- every alias: the warning names the function that is called, the name resolves to it where the alias lives, and on every class exposing it the dispatch condition holds -/
